@@ -4,6 +4,7 @@ package main
 
 import (
 	"bufio"
+	"bytes"
 	"fmt"
 	"image"
 	"io"
@@ -432,8 +433,8 @@ func runC04(c *Ctx) error {
 // patterns and after other images were hashed (the pools then hold their DCT output).
 func hashHistoryCheck(c *Ctx) {
 	fns := hashFns()
-	kinds := []string{"NRGBAa", "RGBA", "Gray", "NRGBA", "YCbCr444"}
-	n := c.N(10, 60)
+	kinds := []string{"NRGBAa", "RGBAa", "RGBA", "Gray", "NRGBA", "YCbCr444"}
+	n := c.N(12, 60)
 	for _, fn := range fns {
 		var prev image.Image
 		for i := 0; i < n; i++ {
@@ -798,6 +799,29 @@ func bufioOpsCorrespondence(c *Ctx) error {
 		}
 		reqs = append(reqs, fmt.Sprintf("bufio.ops %s %s %d %s %s", hexOr(data), full, size, lims(remains), strings.Join(ops, " ")))
 		impl = append(impl, strings.Join(out, " "))
+	}
+	// preview.RenderPreview directly on plain readers of every kind (short reads, last bytes together with io.EOF):
+	// the image is the first min(Size, length) bytes
+	for i := 0; i < c.N(200, 4000); i++ {
+		data := rbytes(c, []int{0, 1, 100, 2047, 2048, 2049, 5000}[c.Rng.Intn(7)])
+		size := []int{0, 1, len(data) / 2, len(data), len(data) + 1, len(data) + 5000}[c.Rng.Intn(6)]
+		var sched []int
+		for j := 0; j < c.Rng.Intn(4); j++ {
+			sched = append(sched, []int{1, 7, 700, 2048, 1 << 20}[c.Rng.Intn(5)])
+		}
+		cr := &chunkReader{data: append([]byte{}, data...), sched: sched, dataEOF: c.Rng.Intn(2) == 0, failAt: -1}
+		pr := preview.NewPreviewReader(zerolog.Nop())
+		err := pr.RenderPreview(cr, meta.PreviewHeader{Size: uint32(size)})
+		want := data
+		if size < len(want) {
+			want = want[:size]
+		}
+		c.Count(fmt.Sprint("render", i, len(data), size, sched, cr.dataEOF), true)
+		c.Stat("op.render-preview-plain")
+		if err != nil || !bytes.Equal(pr.PreviewImage, want) {
+			c.Violate(Case{Entry: "preview.RenderPreview", Input: fmt.Sprintf("%d bytes, Size %d, schedule %v, data-with-EOF %v", len(data), size, sched, cr.dataEOF),
+				Expected: fmt.Sprintf("the first %d bytes", len(want)), Actual: fmt.Sprintf("%d bytes, err=%v", len(pr.PreviewImage), err), Kind: "wrong-value", Class: "chunking:preview"})
+		}
 	}
 	model, err := drv.Batch(reqs)
 	if err != nil {
